@@ -269,13 +269,22 @@ def stepsOfBody (body : List Item) : Option (List Step) :=
   (body.filterMap (fun | .call c => some c | _ => none)).mapM stepOfCall
 
 open Kit.Generated.C18 in
-/-- There is a hook point before the first call, after the last, and between any two calls. -/
+def isCall : Item → Bool
+  | .call _ => true
+  | _ => false
+
+open Kit.Generated.C18 in
+/-- Every call is followed by an item that is not a call (so: a hook or the final assignment,
+and never the end of the body): a hook point separates any two calls and follows the last. -/
 def hooksSeparateCalls : List Item → Bool
   | [] => true
-  | .call _ :: .call _ :: _ => false
-  | [.call _] => false
-  | .call _ :: rest@(_ :: _) => hooksSeparateCalls rest
-  | _ :: rest => hooksSeparateCalls rest
+  | a :: rest =>
+    (if isCall a then
+      (match rest with
+       | [] => false
+       | .hook _ _ :: _ => true
+       | _ => false)
+     else true) && hooksSeparateCalls rest
 
 open Kit.Generated.C18 in
 def firstIsHook : List Item → Bool
